@@ -67,3 +67,24 @@ Theorem C07_marlin_draws :
     (lp_hiding lp = None -> mr_rand mr = [] /\ (mr_shifted mr = None \/ mr_shifted mr = Some [])).
 Proof. exact @marlin_hiding_draws. Qed.
 Print Assumptions C07_marlin_draws.
+
+(* PST13: the blinding polynomial of a hiding commitment is sampled from the caller's RNG tape - one draw for the constant
+   term and one per variable and power up to hiding bound + 1 - so it has at least hiding bound + 2 coefficients, each
+   its own draw; a commitment without hiding bound draws nothing; without an RNG a hiding commitment aborts *)
+From PC Require Import Schemes.PST13 Schemes.PST13H Proofs.PST13HFacts Schemes.IPA.
+Theorem C07_pst13_blinding_draws :
+  forall (FO : FieldOps) nv s betas p hiding rng cm st n,
+    ph_commit1 nv s betas p hiding rng = Ok (cm, st, n) ->
+    match hiding, st with
+    | Some hb, Some blind => n = length blind /\ (1 <= nv -> hb + 2 <= n)%nat
+    | None, None => n = O
+    | _, _ => False
+    end.
+Proof. exact @ph_commit1_draws. Qed.
+Print Assumptions C07_pst13_blinding_draws.
+
+Theorem C07_pst13_no_rng_aborts :
+  forall (FO : FieldOps) nv s betas p hb,
+    (mdeg p <= s)%nat -> vars_ok nv p = true -> ph_commit1 nv s betas p (Some hb) None = Panic.
+Proof. exact @ph_commit1_no_rng. Qed.
+Print Assumptions C07_pst13_no_rng_aborts.
